@@ -8,7 +8,8 @@ the file / database is read back by an independent reader (Python `open(..,'rb')
 
 Compared textually: the per-call results (`I:3,S:616263;B:1;E;…`) and the final content (`final=` / `db=`), where the
 implementation side's `final=` / `db=` comes from the independent reader. The models have no hazard answer any more (the read
-preallocation, the empty-bytes write, the dangling statement after close() and the SQLITE_STATIC bind are repaired): a crash
+preallocation, the empty-bytes write, the dangling statement after close(), the SQLITE_STATIC bind, utf8 reserve() and the null
+last element of csv deserialize_next are repaired): a crash
 of the probe or a foreign C++ exception is a violation. (A model answer `H:<hazard>` would be accepted only with
 kf=<listed KNOWN finding>; none is left.) The utf8 plugin's `at` range check is driven here as well (family u8.plugin_at).
 
@@ -29,8 +30,8 @@ from ..core import Case, Check, log, parse_model
 I64MAX, I64MIN = 2 ** 63 - 1, -(2 ** 63)
 
 SIZES = {
-    "quick": {"rand_u8ops": 150, "rand_file": 500, "rand_sql": 300, "big_reads": 1, "ln_rand": 60, "vals_rand": 40},
-    "thorough": {"rand_u8ops": 3000, "rand_file": 6000, "rand_sql": 4000, "big_reads": 3, "ln_rand": 600, "vals_rand": 400},
+    "quick": {"rand_u8ops": 150, "rand_file": 500, "rand_sql": 300, "hist_sql": 120, "rand_u8case": 60, "big_reads": 1, "ln_rand": 60, "vals_rand": 40},
+    "thorough": {"rand_u8ops": 3000, "rand_file": 6000, "rand_sql": 4000, "hist_sql": 2000, "rand_u8case": 1500, "big_reads": 3, "ln_rand": 600, "vals_rand": 400},
 }
 
 FILE_SIZES = [0, 1, 4095, 4096, 4097, 8191, 8192, 10000]
@@ -180,6 +181,71 @@ def file_impl_answer(fc, iraw, final):
     return ";".join(toks) + " final=" + final
 
 
+PAIR_MODES = ["r", "w", "a", "r+", "w+", "a+", "rb", "wb", "ab", "rb+", "w+b", "ab+"]
+PAIR_OPS = ["rs:3", "rb:2", "ws:5859", "l", "ss:1", "se:0", "p", "f"]
+PAIR_INIT = b"abcdef\nghi"
+
+
+def py_posix_history(path, init, mode, toks):
+    """the independent oracle of the family file.modepairs: the same history on a file of its own through the operating system's
+    calls (os.open / os.read / os.write / os.lseek: no stdio, no BLOC), answered in the vocabulary of `file_impl_answer`.
+    Only for histories whose switches of direction go through a seek (there the C stream and the descriptor agree)."""
+    with open(path, "wb") as f:
+        f.write(init)
+    plus = "+" in mode
+    kind = mode[0]
+    can_r = kind == "r" or plus
+    can_w = kind in "wa" or plus
+    flags = {"r": os.O_RDONLY, "w": os.O_WRONLY | os.O_CREAT | os.O_TRUNC, "a": os.O_WRONLY | os.O_CREAT | os.O_APPEND}[kind]
+    if plus:
+        flags = (flags & ~(os.O_RDONLY | os.O_WRONLY)) | os.O_RDWR
+    fd = os.open(path, flags, 0o644)
+    out = []
+    try:
+        for t in toks:
+            w = t.split(":")
+            if w[0] == "o":
+                out.append("I:0")
+            elif w[0] == "c":
+                out.append("B:1")
+            elif w[0] in ("rs", "rb"):
+                if not can_r:
+                    out.append("E")
+                    continue
+                d = os.read(fd, int(w[1]))
+                out.append("I:%d,%s:%s" % (len(d), "S" if w[0] == "rs" else "R", d.hex()))
+            elif w[0] in ("ws", "wb"):
+                if not can_w:
+                    out.append("E")
+                    continue
+                d = bytes.fromhex(w[1])
+                out.append("I:%d" % os.write(fd, d))
+            elif w[0] == "l":
+                if not can_r:
+                    out.append("E")
+                    continue
+                here = os.lseek(fd, 0, os.SEEK_CUR)
+                d = os.read(fd, 4096)
+                k = d.find(b"\n")
+                line = d if k < 0 else d[:k + 1]
+                os.lseek(fd, here + len(line), os.SEEK_SET)
+                out.append("B:1,S:" + line.hex() if line else "B:0")
+            elif w[0] in ("ss", "se", "sc"):
+                os.lseek(fd, int(w[1]), {"ss": os.SEEK_SET, "se": os.SEEK_END, "sc": os.SEEK_CUR}[w[0]])
+                out.append("I:0")
+            elif w[0] == "p":
+                out.append("I:%d" % os.lseek(fd, 0, os.SEEK_CUR))
+            elif w[0] == "f":
+                out.append("B:1")
+            else:
+                out.append("?" + t)
+    finally:
+        os.close(fd)
+    with open(path, "rb") as f:
+        final = f.read()
+    return ";".join(out) + " final=" + dot(final)
+
+
 def mask_unmodelled(impl, model):
     """tokens the model answers `U` (stat, dir: they read the real file system) are not compared; nothing is compared
     from a `U!` on (direction of an update stream switched without repositioning: undefined by C11 7.21.5.3 p7)"""
@@ -243,6 +309,7 @@ class U8OpsCase:
     utf8 plugin, against the driver command `u8p` (Utf8.pstep: the plugin's method table). After every call the state is
     read back with count() / rawsize() / string()."""
     MEM = 1 << 32          # the model's memLimit: requests are either <= 10^6 elements or >= 2^40 (never in between)
+    NEW_LIMIT = MEM * 4    # ... in bytes (elements are uint32_t): what harness/newlimit.cpp refuses with std::bad_alloc
 
     def __init__(self, text, other):
         self.text, self.other = text, other
@@ -276,6 +343,8 @@ class U8OpsCase:
         it = self.itok
         if name in ("em", "ct", "rw", "cl", "st"):
             self.add(name, "return U.%s();" % {"em": "empty", "ct": "count", "rw": "rawsize", "cl": "clear", "st": "string"}[name])
+        elif name in ("tu", "tl"):
+            self.add(name, "return U.%s().count();" % {"tu": "toupper", "tl": "tolower"}[name])
         elif name == "rv":
             self.add("rv:%s" % it(a[0]), "return U.reserve(%s);" % self.ivar(a[0]))
         elif name == "ap":
@@ -318,6 +387,58 @@ class U8OpsCase:
         return 3 + len(self.sets) + 2
 
 
+_CM_ENTRY = re.compile(r"\{\s*0x([0-9a-fA-F]+)\s*,\s*0x([0-9a-fA-F]+)\s*,\s*0x([0-9a-fA-F]+)\s*,")
+
+
+def read_charmap():
+    """the REAL character table: utf8helper_charmap.cpp -> {code: (upper, lower)} over every entry `{ code, upper, lower, category,
+    "translit" }` of every page (code = the packed bytes of the sequence: verified by `u8 tableid` on every run)"""
+    with open(os.path.join(build.REPO, "modules", "utf8", "utf8helper_charmap.cpp")) as f:
+        src = f.read()
+    tab = {}
+    for m in _CM_ENTRY.finditer(src):
+        code, up, lo = (int(x, 16) for x in m.groups())
+        tab[code] = (up, lo)
+    return tab
+
+
+def packed_codes(text):
+    """packed byte sequences of the well-formed characters of a byte string"""
+    return [int.from_bytes(ch.encode(), "big") for ch in text.decode("utf-8", "ignore")]
+
+
+class U8CaseCase(U8OpsCase):
+    """toupper / tolower / append(string) / append(integer) / clear on `U = utf8(S)` through the REAL plugin, against the driver
+    command `u8t` (Utf8.tstep: Model/Mod/Utf8Case.lean), which gets the entries of the REAL character table for every sequence
+    the history can touch. State read back after every call (count, rawsize, string)."""
+
+    def __init__(self, text, charmap):
+        super().__init__(text, b"z")
+        self.kind = "u8.plugin_case"
+        self.charmap = charmap
+        self.codes = set(packed_codes(text))
+
+    def op(self, name, *a):
+        if name == "al" and a[0] is not None:
+            self.codes.update(packed_codes(a[0]))
+        if name == "ap" and a[0] is not None:
+            self.codes.add(a[0] % (1 << 32))
+        if name == "cl":
+            self.add("cl", "return U.clear();")
+            return
+        super().op(name, *a)
+
+    def table(self):
+        """the WHOLE table (2560 entries, ~40 KB): a character can be completed across two append(string) calls, so the set of
+        sequences a history touches is not a function of its texts taken one by one"""
+        if not hasattr(U8CaseCase, "_table"):
+            U8CaseCase._table = ",".join("%x:%x:%x" % (c, u, l) for c, (u, l) in sorted(self.charmap.items())) or "-"
+        return U8CaseCase._table
+
+    def model_line(self):
+        return "u8t %s %s %s" % (self.table(), dot(self.text), " ".join(self.toks))
+
+
 def u8ops_impl_answer(pc, iraw):
     """canonical implementation answer: `<res>,<count>,<rawsize>,<string>;…` (the vocabulary of the driver's `u8p`)"""
     if iraw.startswith("crash ") or iraw.endswith("diverges"):
@@ -343,6 +464,8 @@ def u8ops_impl_answer(pc, iraw):
             a = "Ei"
         elif a == "E22":
             a = "Er"
+        elif a == "E21":          # EXC_RT_OUT_OF_RANGE
+            a = "Eo"
         elif a == "S:":
             a = "S:."
         elif tok.split(":")[0] in ("ap", "al", "cc"):
@@ -765,6 +888,40 @@ class Half:
                     fc.read(5, kind)
                     fc.close()
                     out.append(fc)
+        # F1d: every mode x every ORDERED PAIR of stream calls, on a 10-byte file: `open; seekset(2); op1; op2; position; readln |
+        # read; position; close` (variant "raw": a pair that switches the direction of an update stream is the recorded finding's
+        # region, the model answers U! there) and the same with `seekset(4)` between the two (variant "seek": every switch of
+        # direction goes through a seek — theorem file_refines_spec_repositioned — and the history is ALSO run by Python through the
+        # operating system's own calls on a file of its own: py_posix_history)
+        for m in PAIR_MODES:
+            for a in PAIR_OPS:
+                for b in PAIR_OPS:
+                    for variant in ("raw", "seek"):
+                        fc = self.fcase("file.modepairs", PAIR_INIT)
+                        fc.open("@", m.encode())
+                        fc.seek("set", 2)
+                        for k, t in enumerate((a, b)):
+                            if k == 1 and variant == "seek":
+                                fc.seek("set", 4)
+                            w = t.split(":")
+                            if w[0] in ("rs", "rb"):
+                                fc.read(int(w[1]), "S" if w[0] == "rs" else "B")
+                            elif w[0] == "ws":
+                                fc.write(bytes.fromhex(w[1]), "S")
+                            elif w[0] == "l":
+                                fc.readln()
+                            elif w[0] in ("ss", "se"):
+                                fc.seek({"ss": "set", "se": "end"}[w[0]], int(w[1]))
+                            else:
+                                fc.simple(w[0])
+                        fc.simple("p")
+                        if variant == "seek":
+                            fc.seek("set", 0)
+                            fc.read(20, "B")
+                            fc.simple("p")
+                            fc.pymode = m
+                        fc.close()
+                        out.append(fc)
         # F2: every mode x {no file, small file, file > one buffer}
         for m in MODES:
             for init in (None, b"abc", self.rbytes(5000)):
@@ -955,7 +1112,16 @@ class Half:
                     else r.choice([I64MAX, I64MIN, 2 ** 40, -2 ** 40, None])
                 if wrote > 40000:
                     n = 0
-                far = n is not None and abs(n) > 20000 or (far and how == "cur")
+                # is the position possibly far beyond the end afterwards? A seek that can FAIL (negative seekset, negative seekend on a
+                # short file, a null offset) leaves the position where it was: `far` is then kept (a write there would create a
+                # sparse file of 2^40 bytes, which neither the model nor the independent reader can hold)
+                if n is not None:
+                    if how == "set":
+                        far = far if n < 0 else n > 20000
+                    elif how == "end":
+                        far = far if n < 0 else n > 20000
+                    else:
+                        far = far or abs(n) > 20000
                 fc.seek(how, n)
                 last = None
             elif k < 0.86:
@@ -1118,6 +1284,39 @@ class Half:
             sc.op("in", ["I:2", nv])
             sc.ops("qa cl de")
             out.append(sc)
+        # histories on a prepared INSERT over the whole alphabet of its client (bind / bind(null) / execute / one-step exec / fetch /
+        # header / isopen / queries), values stored as NULL anywhere, on t(a NOT NULL) and on t(a): step-time failures anywhere in
+        # the history. The driver ALSO runs the specification on them (`spec=`: Spec.Sqlite.run, "execute stores the current content
+        # of the one parameter slot"; theorem sqlite_history_refines_spec) and the check compares it with the REAL module's answers
+        # and with what Python's sqlite3 reads from the database file.
+        hvals = nulls + goods + ["O", "S:c3a9", "I:-9223372036854775808", "I:7", "S:74776f"]
+        for i in range(self.sz.get("hist_sql", 120)):
+            sc = self.scase("sql.history")
+            sc.ops("op")
+            sc.ops("cn" if i % 3 != 2 else "cr")
+            sc.ops("pi")
+            for _ in range(r.randint(4, 16)):
+                k = r.random()
+                if k < 0.30:
+                    sc.op(r.choice(["bi", "bt"]), [r.choice(hvals)] + ([r.choice(hvals)] if r.random() < 0.1 else []))
+                elif k < 0.33:
+                    sc.op(r.choice(["bi", "bt"]), None)
+                elif k < 0.66:
+                    sc.ops("ex")
+                elif k < 0.76:
+                    sc.op("in", [r.choice(hvals)])
+                elif k < 0.82:
+                    sc.ops("fe")
+                elif k < 0.86:
+                    sc.ops("hd")
+                elif k < 0.89:
+                    sc.ops("io")
+                elif k < 0.95:
+                    sc.ops("qa")
+                else:
+                    sc.op("qp", [r.choice(hvals)])
+            sc.ops("fi qa cl de")
+            out.append(sc)
         for _ in range(self.sz["rand_sql"]):
             out.append(self.rand_sql(vals))
         return out
@@ -1195,7 +1394,7 @@ class Half:
                 n = count_of(t)
                 pc = U8OpsCase(t, o)
                 pc.op("em"); pc.op("ct"); pc.op("rw"); pc.op("st")
-                pc.op("rv", 10); pc.op("rv", 0); pc.op("rv", None); pc.op("rv", 1000000)
+                pc.op("rv", 10); pc.op("rv", 0); pc.op("rv", None); pc.op("rv", 1000000); pc.op("rv", -1); pc.op("rv", 2 ** 61)
                 pc.op("al", b"\x82\xac"); pc.op("al", None); pc.op("ap", 65); pc.op("ap", None); pc.op("ap", 50089); pc.op("ap", 0)
                 pc.op("ic", 0, "s"); pc.op("ic", 1, "s"); pc.op("ic", n, "o"); pc.op("ic", 0, None); pc.op("ic", None, "s"); pc.op("ic", 10 ** 6, "s")
                 pc.op("cc", "s"); pc.op("cc", "o"); pc.op("cc", None)
@@ -1225,7 +1424,7 @@ class Half:
                 if k < 0.10:
                     pc.op(r.choice(["em", "ct", "rw", "st"]))
                 elif k < 0.14:
-                    pc.op("rv", r.choice([0, 1, 7, 4096, 1000000, None]))
+                    pc.op("rv", r.choice([0, 1, 7, 4096, 1000000, None, -1, -7, I64MIN, 2 ** 61, 2 ** 63 - 1]))
                 elif k < 0.17:
                     pc.op("cl"); grow = 0
                 elif k < 0.27:
@@ -1250,11 +1449,58 @@ class Half:
                     pc.op("s2", r.choice(P), r.choice(P))
             pc.op("st")
             out.append(pc)
-        # reserve() with a request no vector can hold / no allocator can serve: recorded finding C18.utf8_reserve_unchecked
-        for n in (-1, 2 ** 61, 2 ** 62, I64MAX, I64MIN, -2, 2 ** 40, 2 ** 50, 2 ** 61 - 1):
-            pc = U8OpsCase(b"ab", b"z")
-            pc.kind = "u8.plugin_reserve"
-            pc.op("ct"); pc.op("rv", n); pc.op("ct")
+        # reserve() with a request no vector can hold / no allocator can serve (the region of the repaired finding
+        # C18.utf8_reserve_unchecked, /repo 2b1dab4): negative -> OUT_OF_RANGE; above vector::max_size() = 2^61-1 (std::length_error
+        # caught) -> OUT_OF_RANGE; above what the allocator serves (std::bad_alloc caught) -> OUT_OF_RANGE; the object is left alone
+        # and stays usable. These histories run with harness/newlimit.cpp preloaded (see there): the sanitizer's operator new aborts
+        # where a plain one throws std::bad_alloc, so the allocator's refusal above NEW_LIMIT bytes is supplied by that file.
+        for t in (b"ab", b"", "\u00e9".encode() * 50):
+            for n in (-1, -2, I64MIN, 2 ** 61 - 1, 2 ** 61, 2 ** 61 + 1, 2 ** 62, I64MAX, 2 ** 40, 2 ** 50, 2 ** 61 - 2, 0, 1000000):
+                pc = U8OpsCase(t, b"z")
+                pc.kind = "u8.plugin_reserve"
+                pc.op("ct"); pc.op("rv", n); pc.op("ct"); pc.op("st"); pc.op("rv", 10); pc.op("al", b"q\xc3\xa9"); pc.op("rv", n); pc.op("ic", 0, "s")
+                out.append(pc)
+        return out
+
+    def gen_u8case(self):
+        """the case transformations through the generated... no: through the REAL character table (read from the source tree)"""
+        r = self.rng
+        cm = read_charmap()
+        self.chk.stats["c18f_charmap_entries"] = len(cm)
+        self.chk.stats["c18f_charmap_zero_images"] = sum(1 for c, (u, l) in cm.items() if c != 0 and (u == 0 or l == 0))
+        texts = ["Hello, World 123 ~", "\u00e0\u00e9\u00ee\u00f5\u00fc\u00ff \u00c0\u00c9\u00ce\u00d5\u00dc \u00df\u00b5", "\u03b1\u03b2\u03b3 \u0391\u0392\u0393 \u03c2\u03c3",
+                 "\u043f\u0440\u0438\u0432\u0435\u0442 \u041f\u0420\u0418\u0412\u0415\u0422 \u0451\u0401", "\u0140\u0142\u0144\u0148 \u0141\u0143 \u0131\u0130 \u017f", "\u1e01\u1e02 \u1e9e \u1f00\u1f08 \u10d0\u10a0",
+                 "\u24d0\u24b6 \u2170\u2160 \u2c30\u2c00 \u2d00", "\U000104d8\U000104b0 \U00010428\U00010400 \U0001e922\U0001e900", "\u20ac \u6f22\u5b57 \U0001f600 \u0250\u0561\u0531", ""]
+        texts = [t.encode() for t in texts] + [b"a\xffB\xc3", b"a\0B", b"\xc3", b"x" * 300 + "\u00e9".encode() * 40]
+        out = []
+        for i, t in enumerate(texts):
+            t2 = texts[(i + 1) % len(texts)][:40]
+            t3 = texts[(i + 5) % len(texts)][:24]
+            for h in range(3):
+                pc = U8CaseCase(t, cm)
+                if h == 0:
+                    pc.op("tu"); pc.op("tl"); pc.op("tu"); pc.op("tu"); pc.op("cl"); pc.op("tl")
+                elif h == 1:
+                    pc.op("tu"); pc.op("al", t2); pc.op("cl"); pc.op("al", t2); pc.op("tl"); pc.op("al", t3); pc.op("ap", 97); pc.op("ap", 0xC389)
+                    pc.op("al", None); pc.op("ap", None); pc.op("al", b"")
+                else:
+                    pc.op("al", t2); pc.op("tl"); pc.op("al", t3); pc.op("al", b"\xc3"); pc.op("al", b"\x89Q"); pc.op("tu"); pc.op("ap", 0x51); pc.op("tl")
+                out.append(pc)
+        pool = [x for x in texts if len(x) < 80]
+        for _ in range(self.sz.get("rand_u8case", 60)):
+            pc = U8CaseCase(r.choice(pool), cm)
+            for _ in range(r.randint(3, 9)):
+                k = r.random()
+                if k < 0.25:
+                    pc.op("tu")
+                elif k < 0.5:
+                    pc.op("tl")
+                elif k < 0.8:
+                    pc.op("al", r.choice(pool)[:r.choice([1, 2, 3, 7, 20])])
+                elif k < 0.9:
+                    pc.op("ap", r.choice([65, 97, 0xC3A9, 0xC389, 0xCEB1, 0, 0x4142, None]))
+                else:
+                    pc.op("cl")
             out.append(pc)
         return out
 
@@ -1298,6 +1544,20 @@ class Half:
                     if r.random() < 0.4:
                         cc.op(r.choice(["ie", "ep", "se"]))
                 cc.op("ie"); cc.op("ep"); cc.op("se")
+                out.append(cc)
+        # deserialize_next on a table whose LAST element is null (the region of the repaired finding C18.csv_next_null_last_element,
+        # /repo ad063b9: it was a null dereference): the element is continued as an empty ENCAPSULATED field
+        nl_tables = [[None], [b"a", None], [None, None], [b'x"y', b"", None], [None, b"q", None]]
+        nl_lines = [b"", b"x", b"x,y", b'x",y', b'""', b'"', b'"",', b",", b'",', b'x"y', b" ", b"\n", b"a\n", b'"\n', b'x" ,y', b'"x', b'x""y",z',
+                    b"\r\n", b"\0", b'"  "', b"a,b,c"]
+        for k, t in enumerate(nl_tables):
+            c = [("d",), ("f", b";'")][k % 2]
+            sep, enc = sep_enc(c)
+            for ln in nl_lines:
+                ln2 = bytes(sep if x == 44 else enc if x == 34 else x for x in ln)
+                cc = CsvPCase(c, t)
+                cc.kind = "csv.plugin_nulllast"
+                cc.op("dn", ln2); cc.op("ie"); cc.op("ep"); cc.op("se"); cc.op("dn", bytes([0x7a, enc, sep, 0x77])); cc.op("se")
                 out.append(cc)
         # round trip through the plugin for every constructor that yields sep != enc: serialize(T), split after LF, feed back
         for c in ctors:
@@ -1392,6 +1652,10 @@ class Half:
                 c = Case("v%d" % i, cc.model_line(), cc.impl_line(), {"kind": cc.kind})
                 self.objs[c.cid] = cc
                 cases.append(c)
+            for i, pc in enumerate(self.gen_u8case()):
+                c = Case("t%d" % i, pc.model_line(), pc.impl_line(), {"kind": pc.kind})
+                self.objs[c.cid] = pc
+                cases.append(c)
             for i, pc in enumerate(self.gen_u8ops()):
                 c = Case("p%d" % i, pc.model_line(), pc.impl_line(), {"kind": pc.kind})
                 self.objs[c.cid] = pc
@@ -1406,17 +1670,32 @@ class Half:
                 return res, round(time.time() - t1, 1)
             # the utf8 method histories run in probe processes of their own: they pass a typed null object (`N:o0:1`), and the
             # type number of a plugin is its import rank within the PROCESS (utf8 must be the first module imported there)
-            own = [c for c in cases if isinstance(self.objs[c.cid], U8OpsCase)]
+            lim = [c for c in cases if c.meta["kind"] == "u8.plugin_reserve"]
+            own = [c for c in cases if isinstance(self.objs[c.cid], U8OpsCase) and c.meta["kind"] != "u8.plugin_reserve"]
             rest = [c for c in cases if not isinstance(self.objs[c.cid], U8OpsCase)]
-            with ThreadPoolExecutor(max_workers=3) as ex:
+            # ... and the reserve() boundary histories with an operator new that throws std::bad_alloc above NEW_LIMIT bytes
+            # (harness/newlimit.cpp: the sanitizer's own operator new aborts the process instead of throwing)
+            env_lim = dict(env)
+            try:
+                env_lim["LD_PRELOAD"] = build_newlimit()
+            except build.BuildError as e:
+                chk.broken_ties.append("build: %s: %s" % (e.what, e.output[-400:]))
+                return
+            env_lim["BLOCV_NEW_LIMIT"] = str(U8OpsCase.NEW_LIMIT)
+            env_lim["ASAN_OPTIONS"] = build.sanitizer_env()["ASAN_OPTIONS"] + ":verify_asan_link_order=0"
+            with ThreadPoolExecutor(max_workers=4) as ex:
                 fi = ex.submit(timed, run.run_harness, hbin, ["%s %s" % (c.cid, c.impl_line) for c in rest], timeout_s=60, workers=12,
                                env_extra=env)
                 fu = ex.submit(timed, run.run_harness, hbin, ["%s %s" % (c.cid, c.impl_line) for c in own], timeout_s=60, workers=4,
                                env_extra=env)
+                fl = ex.submit(timed, run.run_harness, hbin, ["%s %s" % (c.cid, c.impl_line) for c in lim], timeout_s=60, workers=3,
+                               env_extra=env_lim)
                 fm = ex.submit(timed, run_driver_bigstack, ["%s %s" % (c.cid, c.model_line) for c in cases if c.model_line] + umodel, workers=8)
                 impl, chk.stats["c18f_impl_s"] = fi.result()
                 impl_u, chk.stats["c18f_impl_u8_s"] = fu.result()
                 impl.update(impl_u)
+                impl_l, chk.stats["c18f_impl_u8lim_s"] = fl.result()
+                impl.update(impl_l)
                 model, chk.stats["c18f_model_s"] = fm.result()
             chk.stats["c18f_run_s"] = round(time.time() - t, 1)
             if "#driver-error" in model:
@@ -1440,6 +1719,11 @@ class Half:
             except FileNotFoundError:
                 final = "-"
             return file_impl_answer(o, iraw, final)
+        if isinstance(o, U8CaseCase):
+            a = u8ops_impl_answer(o, iraw)
+            if a.startswith(("crash", "foreign", "setup")) or a.endswith("diverges"):
+                return a
+            return ";".join(t.split(",", 1)[1] if "," in t else t for t in a.split(";"))
         if isinstance(o, U8OpsCase):
             return u8ops_impl_answer(o, iraw)
         if isinstance(o, CsvPCase):
@@ -1544,8 +1828,47 @@ class Half:
                                      "serialize=%s want=%s; last=%s want=%s" % (it[1][:200] if len(it) > 1 else "?", want_se[:200], it[-1][:200], want_last[:200]),
                                      rec, stderr)
                 return
-        # the POSIX-level specification (Spec.File.srun, run by the driver on a stream state of its own) against the REAL module
+        # file.modepairs, variant "seek": the history through the operating system's own calls (Python) against the REAL module
+        if isinstance(o, FileCase) and getattr(o, "pymode", None) and " final=" in ians:
+            want = py_posix_history(o.path + ".py", o.init, o.pymode, o.toks)
+            chk.stats["c18f_posix_histories"] = chk.stats.get("c18f_posix_histories", 0) + 1
+            if want != ians:
+                rec2 = dict(rec)
+                rec2["python"] = want[:2000]
+                chk.record_violation("the real file module differs from the same history run through the operating system's calls (Python os.read / os.write / os.lseek)",
+                                     short, self.diff(ians, want), rec2, stderr)
+                return
+        # sqlite3: the statement specification (Spec.Sqlite.run, run by the driver on the calls that follow `op cr|cn pi`) against the
+        # REAL module: an executing call answers TRUE exactly when the specification stores a row and SQLite's error exactly when
+        # it refuses; and the rows Python's sqlite3 reads from the database file are the specification's rows
         spec = m.get("spec")
+        if spec and isinstance(o, SqlCase) and " db=" in ians and "/" in spec:
+            sa, sdb = spec.split("/", 1)
+            it, idb = ians.split(" db=", 1)
+            it = it.split(";")
+            sa = sa.split(",") if sa else []
+            for i, a in enumerate(sa):
+                want = {"T": "B:1", "R": "Q"}.get(a)
+                if want is None:
+                    continue
+                chk.stats["c18f_sqlspec_tokens"] = chk.stats.get("c18f_sqlspec_tokens", 0) + 1
+                got = it[3 + i] if 3 + i < len(it) else "?missing"
+                if got != want:
+                    rec2 = dict(rec)
+                    rec2["spec"] = spec[:4000]
+                    chk.record_violation("the real sqlite3 module differs from the statement specification (Spec.Sqlite.run) on an executing call", short,
+                                         "call %d (%s): impl=%s spec=%s" % (3 + i, o.toks[3 + i][:40], got[:80], want), rec2, stderr)
+                    return
+            rest = o.toks[3 + len(sa):]
+            if not any(t.split("=")[0] in ("pi", "in", "cr", "cn", "n0", "op") for t in rest):
+                chk.stats["c18f_sqlspec_dbs"] = chk.stats.get("c18f_sqlspec_dbs", 0) + 1
+                if idb != sdb:
+                    rec2 = dict(rec)
+                    rec2["spec"] = spec[:4000]
+                    chk.record_violation("the rows Python's sqlite3 reads from the database differ from the statement specification (Spec.Sqlite.run)", short,
+                                         "db=%s spec=%s" % (idb[:300], sdb[:300]), rec2, stderr)
+                    return
+        # the POSIX-level specification (Spec.File.srun, run by the driver on a stream state of its own) against the REAL module
         if spec and isinstance(o, FileCase) and " final=" in ians:
             it = ians.split(" final=", 1)[0].split(";")
             st = spec.split(";")
@@ -1588,6 +1911,19 @@ class Half:
                 return "token %d: impl=%s…(len %d) model=%s…(len %d), first difference at char %d: impl ..%s model ..%s" % (
                     i, x[:60], len(x), y[:60], len(y), j, x[max(0, j - 10):j + 30], y[max(0, j - 10):j + 30])
         return "impl has %d tokens, model %d; impl=%s model=%s" % (len(ta), len(tb), a[-200:], b[-200:])
+
+
+def build_newlimit():
+    """harness/newlimit.cpp -> <cache>/newlimit-<hash>.so (not sanitized itself: it only forwards to the sanitizer's operator new)"""
+    src = os.path.join(build.VERIF, "harness", "newlimit.cpp")
+    out = os.path.join(build.CACHE, "newlimit-%s.so" % build.files_hash([src]))
+    with build.Lock("newlimit"):
+        if not os.path.exists(out):
+            rc, o = build._sh(["g++", "-std=c++11", "-O1", "-shared", "-fPIC", src, "-o", out + ".tmp", "-ldl"])
+            if rc != 0:
+                raise build.BuildError("harness/newlimit.cpp does not compile", o[-2000:])
+            os.rename(out + ".tmp", out)
+    return out
 
 
 def load_findings(check):
@@ -1671,22 +2007,42 @@ RULE = ("file: every history below is run on the real module (ASan+UBSan build, 
         "sequences that a later append(string) completes, 300 characters) x 3 second objects: a fixed history of 43 calls with the "
         "receiver itself / another object / a typed null object as utf8 argument, insert of the object into ITSELF at every position "
         "class (39 histories), 150 random histories of 3-12 calls (positions / counts / code points incl. -1, INT64 extremes, 2^32+x, "
-        "null), state read back after every call (count, rawsize, string); reserve() with -1, -2, 2^61-1, 2^61, 2^62, INT64 extremes, "
-        "2^40, 2^50 (recorded finding C18.utf8_reserve_unchecked). csv plugin glue (plugin_csv.cpp) through the real plugin: 21 "
+        "null), state read back after every call (count, rawsize, string); toupper / tolower (TransformUpper / TransformLower through the REAL character "
+        "table: utf8helper_charmap.cpp is read by the check, 2560 entries, and the driver is handed the whole table with every history), "
+        "append(string) on an object with a transformation still installed, append(integer), clear: 14 texts (ASCII, Latin-1, Greek, "
+        "Cyrillic, Latin Extended, the E1 / E2 pages, the two 4-byte pages, characters without a page, ill-formed bytes, NUL, 340 "
+        "characters) x 3 fixed histories + 60 random histories, state read back after every call (family u8.plugin_case; the sticky "
+        "transformation is the recorded finding C18.utf8_transform_sticky); reserve() with -1, -2, INT64_MIN (negative), 2^61, 2^61+1, 2^62, "
+        "INT64_MAX (above vector::max_size(): std::length_error caught), 2^40, 2^50, 2^61-2, 2^61-1 (above what the allocator serves: "
+        "std::bad_alloc caught; supplied by harness/newlimit.cpp, an operator new that throws above 2^34 bytes, because the sanitizer's "
+        "operator new aborts instead of throwing), 0, 10^6 on 3 objects, the exact error class EXC_RT_OUT_OF_RANGE compared and the "
+        "object used afterwards (39 histories: the region of the repaired finding C18.utf8_reserve_unchecked). csv plugin glue (plugin_csv.cpp) through the real plugin: 21 "
         "constructor calls (default; string null / empty / 1, 2, 3 bytes / multi-byte / NUL / LF / space / sep = enc; integer codes "
         "incl. null, 300, -1, INT64 extremes, 2^32+44) x 11 states of the table variable (empty, null table, null elements first / "
         "last / only, quotes, CR LF, NUL, 0xff, 300 bytes): serialize(T), in_error, error_pos, deserialize / deserialize_next with "
-        "null and random lines over {sep, enc, space, LF, CR, a, b, NUL}, T read back after every call (231 histories; a null LAST "
-        "element is the recorded finding C18.csv_next_null_last_element); round trip against an INDEPENDENT writer (Python, RFC "
+        "null and random lines over {sep, enc, space, LF, CR, a, b, NUL}, T read back after every call (231 histories), and deserialize_next on tables whose LAST "
+        "element is null (the region of the repaired finding C18.csv_next_null_last_element: 5 tables x 21 lines, the element is "
+        "continued as an empty encapsulated field); round trip against an INDEPENDENT writer (Python, RFC "
         "4180 quoting with the object's separator / quote bytes): serialize(T) must be its text and feeding the text back line by "
         "line (deserialize, deserialize_next) must rebuild T (46 random tables over every constructor with sep != enc, neither LF). "
+        "file: 12 modes (r, w, a, r+, w+, a+ and b variants) x every ORDERED PAIR of 8 stream calls (read string / bytes, write, readln, "
+        "seekset, seekend, position, flush) after seekset(2) on a 10-byte file, once as they are (a switch of direction on an update "
+        "stream is the recorded finding's region) and once with a seekset between the two (every switch of direction goes through a "
+        "seek: theorem file_refines_spec_repositioned), followed by position / seekset(0) / read(20) / position: 1536 histories, the 768 "
+        "with the seek ALSO run by Python through the operating system's own calls (os.open / os.read / os.write / os.lseek) on a file "
+        "of its own and compared with the real module call by call and in the final content. "
         "file: read sizes 4095, 4096, 4097, 5000, 8191, 8192, 8193, 12288, 12289 at offsets 0, 1, 100, 4095, 4096, 4097 of a 30000-byte "
         "file (more data follows every request), both variants, followed by position / read / readln / seekcur(-3) / read (108 "
         "histories); every stream call of every file history is ALSO answered by the POSIX-level specification (Spec.File.srun on a "
         "stream state of its own, `spec=` of the driver) and compared with the real module. sqlite3: table t(a NOT NULL): a "
         "step-time failure (constraint violation) of exec() / execute() followed by further bind (variable or temporary tuple, "
         "object item) / execute / header / fetch / finalize+prepare calls on the same connection (5 null-stored values x 3 "
-        "prefixes x 11 tails + 5 exec histories = 170), 35% of the random histories on the NOT NULL table.")
+        "prefixes x 11 tails + 5 exec histories = 170), 35% of the random histories on the NOT NULL table; 120 random histories of 4-16 "
+        "calls on a prepared INSERT over its client's whole alphabet (bind of variable / temporary / null tuples, 1-2 items, values stored "
+        "as NULL, object items; execute; one-step exec; fetch; header; isopen; query; query with parameter) on t(a NOT NULL) (2/3) and "
+        "t(a): every sqlite3 line that starts `op cr|cn pi` is ALSO answered by the statement specification (Spec.Sqlite.run, `spec=` of "
+        "the driver: TRUE / SQLite error of every executing call, and the rows of the table, which are compared with what Python's "
+        "sqlite3 reads from the database file).")
 
 
 class C18F(Check):
@@ -1704,7 +2060,9 @@ class C18F(Check):
     assumptions = ["one handle per file at a time (stdio buffering unobservable); regular files in an existing writable directory; "
                    "SQL text fixed to CREATE TABLE t(a) | t(a NOT NULL) / INSERT INTO t VALUES(?) / SELECT a, typeof(a) FROM t / SELECT ?1, typeof(?1); "
                    "fopen modes with the glibc mmap flag `m` or a comma are outside the model (nothing compared after such an open); "
-                   "utf8: the five table-driven transformations are not modelled; reserve() requests are <= 10^6 or >= 2^40 elements"]
+                   "utf8: normalize / capitalize / translit are not modelled (toupper / tolower are, with the character table as a parameter of the model "
+                   "and the real table handed to the driver by the check); reserve() requests are <= 10^6 or >= 2^40 elements, "
+                   "and the allocator's refusal (std::bad_alloc above 2^34 bytes) is supplied by harness/newlimit.cpp in the u8.plugin_reserve family"]
 
     def __init__(self, tier, seed):
         super().__init__(tier, seed)
